@@ -6,7 +6,8 @@
 //	(ii)  end to end: small programs (Reduce, Fold, Cogroup, Reshuffle, Reshard,
 //	      Repartition) on the local and the bigmachine (testsystem) executors, a
 //	      WriterFunc appended after the operator records (shard, key) pairs;
-//	(iii) thorough tier: the same observations recomputed in a second OS process.
+//	(iii) a second OS process recomputes a compact set of key hashes in every tier
+//	      (kind xproc) and, in the thorough tier, every observation.
 //
 // It writes the Coq case file judged by coq/C05/Corr.v.
 package main
@@ -277,13 +278,14 @@ type Row struct {
 
 // Desc describes one case; it is everything needed to re-run it.
 type Desc struct {
-	Kind string `json:"kind"` // hash | range | e2e
+	Kind string `json:"kind"` // hash | range | xproc | e2e
 	ID   int    `json:"id"`
 	// hash
 	Key    []Val   `json:"key,omitempty"`
 	Seed   uint32  `json:"seed,omitempty"`
 	Places []Place `json:"places,omitempty"`
 	Fill   uint64  `json:"fill,omitempty"`  // seed of the filler rows
+	NS     []int   `json:"ns,omitempty"`    // xproc: shard counts for which the shards are compared
 	Extra  int     `json:"extra,omitempty"` // value columns after the prefix
 	// range
 	T  string `json:"t,omitempty"`
@@ -781,7 +783,7 @@ func run(d *Desc) (o Obs) {
 		}
 	}()
 	switch d.Kind {
-	case "hash":
+	case "hash", "xproc":
 		return runHash(d)
 	case "range":
 		return runRange(d)
@@ -812,6 +814,12 @@ func term(d *Desc, o Obs, other *Obs) string {
 			hs = append(append([]uint32(nil), hs...), other.Hashes...)
 		}
 		return vf.App("CHash", keyCoq(d.Key), fmt.Sprint(d.Seed), u32list(hs))
+	case "xproc":
+		var second []uint32
+		if other != nil && !other.Failed {
+			second = other.Hashes
+		}
+		return vf.App("CCross", keyCoq(d.Key), fmt.Sprint(d.Seed), vf.IntList(d.NS), u32list(o.Hashes), u32list(second))
 	case "range":
 		// the second observation: placement B, or any observation of the second
 		// process that disagrees with placement A
@@ -914,6 +922,41 @@ func genHash(r *vf.Rand, id int, types []string) Desc {
 	}
 	d.Places = genPlaces(r, r.Range(2, 4))
 	return d
+}
+
+// genCross: keys whose hash is computed by this process and by a separately
+// started one: every key type, strings and byte slices of the lengths around
+// the block and small-buffer boundaries, and multi-column prefixes with a long
+// string.
+func genCross(r *vf.Rand, next func() int) []Desc {
+	var ds []Desc
+	add := func(key []Val) {
+		d := Desc{Kind: "xproc", ID: next(), Key: key, Fill: r.Uint64(), Extra: r.Intn(2),
+			NS: []int{2, 3, 7, 16, 1000}, Places: genPlaces(r, 2)}
+		if r.Bool() {
+			d.Seed = uint32(r.Uint64())
+		}
+		ds = append(ds, d)
+	}
+	bytesOf := func(n int) string {
+		b := make([]byte, n)
+		for i := range b {
+			b[i] = byte('a' + r.Intn(26))
+		}
+		return hex.EncodeToString(b)
+	}
+	for _, t := range allTypes {
+		add([]Val{randVal(r, t, true)})
+		add([]Val{randVal(r, t, true)})
+	}
+	for _, t := range []string{"string", "bytes"} {
+		for _, n := range []int{0, 1, 31, 32, 33, 64, 200} {
+			add([]Val{{T: t, S: bytesOf(n)}})
+		}
+	}
+	add([]Val{{T: "string", S: bytesOf(40)}, randVal(r, "int", true)})
+	add([]Val{randVal(r, "int16", true), {T: "string", S: bytesOf(100)}, {T: "bytes", S: bytesOf(70)}})
+	return ds
 }
 
 var e2eKeyTypes = [][]string{
@@ -1175,6 +1218,8 @@ func generate(opts vf.Opts) []Desc {
 			}
 		}
 	}
+	// --- the compact set recomputed by a second OS process in every tier
+	ds = append(ds, genCross(root.Split(), next)...)
 	// --- single keys of every type, 2- and 3-column prefixes
 	nhash := 40
 	if thorough {
@@ -1268,6 +1313,8 @@ func nontriv(d *Desc, t string) string {
 		}
 	case "range":
 		return vf.Hash(fmt.Sprint(d.T, d.Lo, d.Seed))
+	case "xproc":
+		return vf.Hash(keyCoq(d.Key) + fmt.Sprint(d.Seed))
 	case "e2e":
 		// some key has rows in two producers
 		seen := map[string]int{}
@@ -1284,15 +1331,15 @@ func nontriv(d *Desc, t string) string {
 
 func kindOf(d *Desc) string {
 	switch d.Kind {
-	case "hash":
+	case "hash", "xproc":
 		ts := make([]string, len(d.Key))
 		for i, v := range d.Key {
 			ts[i] = v.T
 		}
 		if len(ts) > 1 {
-			return fmt.Sprintf("hash/%d-col", len(ts))
+			return fmt.Sprintf("%s/%d-col", d.Kind, len(ts))
 		}
-		return "hash/" + ts[0]
+		return d.Kind + "/" + ts[0]
 	case "range":
 		return "range/" + d.T
 	}
@@ -1314,6 +1361,9 @@ func kindOf(d *Desc) string {
 func sigOf(d *Desc) string {
 	if d.Tag != "" {
 		return d.Tag
+	}
+	if d.Kind == "xproc" {
+		return "cross-process-hash"
 	}
 	if d.Kind == "e2e" && d.Rekey {
 		return "e2e-rekeyed-result-" + d.Op
@@ -1376,34 +1426,52 @@ func main() {
 	for i := range descs {
 		obs[i] = run(&descs[i])
 	}
-	// (iii) second OS process
-	var others []Obs
-	if opts.Tier == "thorough" {
+	// (iii) second OS process: every case in the thorough tier, the compact
+	// cross-process set (kind xproc) always
+	others := make([]*Obs, len(descs))
+	var send []int
+	for i := range descs {
+		if opts.Tier == "thorough" || descs[i].Kind == "xproc" {
+			send = append(send, i)
+		}
+	}
+	if len(send) > 0 {
 		dir, err := os.MkdirTemp("", "c05-child")
 		if err != nil {
 			fmt.Fprintln(os.Stderr, err)
 			os.Exit(2)
 		}
 		defer os.RemoveAll(dir)
-		js, _ := json.Marshal(descs)
+		sub := make([]Desc, len(send))
+		for k, i := range send {
+			sub[k] = descs[i]
+		}
+		js, _ := json.Marshal(sub)
 		in := dir + "/descs.json"
 		if err := os.WriteFile(in, js, 0o644); err != nil {
 			fmt.Fprintln(os.Stderr, err)
 			os.Exit(2)
 		}
+		var got []Obs
 		cmd := osexec.Command(os.Args[0], "-child", in, "-childout", dir+"/obs.json")
 		err = cmd.Run()
 		if err == nil {
 			var data []byte
 			if data, err = os.ReadFile(dir + "/obs.json"); err == nil {
-				err = json.Unmarshal(data, &others)
+				err = json.Unmarshal(data, &got)
 			}
 		}
-		if err != nil || len(others) != len(descs) {
+		if err != nil || len(got) != len(send) {
 			fmt.Fprintln(os.Stderr, "c05: second process failed:", err)
 			os.Exit(2)
 		}
-		out.Notes = append(out.Notes, fmt.Sprintf("every case recomputed in a second OS process (pid differs, fresh sessions): %d cases", len(others)))
+		for k, i := range send {
+			others[i] = &got[k]
+		}
+		out.Notes = append(out.Notes, fmt.Sprintf("recomputed in a second OS process (pid differs, fresh sessions): %d cases", len(send)))
+		out.Extra["second_process_cases"] = len(send)
+	}
+	if opts.Tier == "thorough" {
 		out.Extra["second_process"] = true
 		out.Extra["exhaustive"] = true // all 2^8 and 2^16 keys of int8/uint8/int16/uint16 enumerated above
 		out.Extra["exhaustive_what"] = "all int8, uint8, int16, uint16 key values under seed 0 and one random seed"
@@ -1412,10 +1480,7 @@ func main() {
 	}
 	for i := range descs {
 		d := &descs[i]
-		var oth *Obs
-		if others != nil {
-			oth = &others[i]
-		}
+		oth := others[i]
 		t := term(d, obs[i], oth)
 		var observed interface{} = obs[i]
 		if d.Kind != "e2e" {
